@@ -8,6 +8,7 @@ import (
 	"github.com/aperturerobotics/util/broadcast"
 	"github.com/aperturerobotics/util/ccontainer"
 	"github.com/aperturerobotics/util/promise"
+	"github.com/aperturerobotics/util/verifhook"
 )
 
 // RefCountResolver resolves a value within a RefCount container.
@@ -131,12 +132,15 @@ func WaitRefCountContainer[T comparable](
 // Returns if the context was updated.
 func (r *RefCount[T]) SetContext(ctx context.Context) bool {
 	var updated bool
+	verifhook.Point("refcount.lock", r)
 	r.mtx.Lock()
+	verifhook.Enter(r)
 	if r.ctx != ctx {
 		r.ctx = ctx
 		r.startResolveLocked()
 		updated = true
 	}
+	verifhook.Leave(r)
 	r.mtx.Unlock()
 	return updated
 }
@@ -150,7 +154,9 @@ func (r *RefCount[T]) ClearContext() {
 // cb is an optional callback to call when the value changes.
 // the callback will be called with an empty value when the value becomes empty.
 func (r *RefCount[T]) AddRef(cb func(resolved bool, val T, err error)) *Ref[T] {
+	verifhook.Point("refcount.lock", r)
 	r.mtx.Lock()
+	verifhook.Enter(r)
 	nref := &Ref[T]{rc: r, cb: cb}
 	r.refs[nref] = struct{}{}
 	if len(r.refs) == 1 && !r.resolved {
@@ -158,7 +164,9 @@ func (r *RefCount[T]) AddRef(cb func(resolved bool, val T, err error)) *Ref[T] {
 	} else if r.resolved {
 		nref.cb(true, r.value, r.valueErr)
 	}
+	verifhook.Leave(r)
 	r.mtx.Unlock()
+	verifhook.Point("refcount.addref.ret", r)
 	return nref
 }
 
@@ -341,7 +349,9 @@ func (r *RefCount[T]) Access(ctx context.Context, cb func(ctx context.Context, v
 
 // removeRef removes a reference and shuts down if no refs remain.
 func (r *RefCount[T]) removeRef(ref *Ref[T]) {
+	verifhook.Point("refcount.lock", r)
 	r.mtx.Lock()
+	verifhook.Enter(r)
 	lenBefore := len(r.refs)
 	delete(r.refs, ref)
 	lenAfter := len(r.refs)
@@ -350,6 +360,7 @@ func (r *RefCount[T]) removeRef(ref *Ref[T]) {
 			r.shutdown()
 		}
 	}
+	verifhook.Leave(r)
 	r.mtx.Unlock()
 }
 
@@ -407,6 +418,7 @@ func (r *RefCount[T]) startResolveLocked() {
 
 // resolve is the goroutine to resolve the value to the container.
 func (r *RefCount[T]) resolve(ctx context.Context, waitCh, doneCh chan struct{}, nonce uint32) {
+	verifhook.Point("refcount.resolve", r)
 	defer close(doneCh)
 
 	if waitCh != nil {
@@ -420,15 +432,19 @@ func (r *RefCount[T]) resolve(ctx context.Context, waitCh, doneCh chan struct{},
 	released := func() {
 		resolveAfterRelease := func(lock bool) {
 			if lock {
+				verifhook.Point("refcount.lock", r)
 				r.mtx.Lock()
 			}
+			verifhook.Enter(r)
 			defer r.mtx.Unlock()
+			defer verifhook.Leave(r)
 			if r.nonce == nonce {
 				// calls shutdown internally
 				r.startResolveLocked()
 			}
 		}
 
+		verifhook.Point("refcount.lock", r)
 		if r.mtx.TryLock() {
 			resolveAfterRelease(false)
 		} else {
@@ -438,8 +454,11 @@ func (r *RefCount[T]) resolve(ctx context.Context, waitCh, doneCh chan struct{},
 
 	val, valRel, err := r.resolver(ctx, released)
 
+	verifhook.Point("refcount.lock", r)
 	r.mtx.Lock()
+	verifhook.Enter(r)
 	defer r.mtx.Unlock()
+	defer verifhook.Leave(r)
 
 	// assert we are still the resolver
 	if r.nonce != nonce {
